@@ -113,6 +113,8 @@ def run_case(case):
         pool = corpus.context_scripts(rng_for(PROP, sd, "ctx"), 16) + corpus.collision_scripts(rng_for(PROP, sd, "col"), 36, conflicting_returns=False, shadow_helpers=False) + \
             function_before_declaration_scripts()[1::2] + corpus.helper_only_scripts() + corpus.main_loop_break_scripts() + corpus.twice_scripts()
         script = pool[idx % len(pool)]
+    elif kind == "boundary":
+        script = corpus.boundary_scripts()[idx % len(corpus.boundary_scripts())]
     elif kind == "lists":
         from ..gen import lists
         script = lists.generate((PROP, sd, "lists", idx, ()), ())["source"]
@@ -127,6 +129,14 @@ def run_case(case):
         return out
     cpp = t["cpp"]
     out["cpp"] = cpp
+    if kind == "boundary":
+        # "documented style" = the host classes run the script: a call the Python library itself refuses is outside the property
+        with fw.Scratch() as wd0:
+            py = engine.host_reference(script, wd0, passes=1)
+        out["host_status"] = py.get("status")
+        if py.get("status") != "ok":
+            out["transpile"] = "host-refuses"
+            return out
     out["structure"] = structure_problems(cpp)
     with fw.Scratch() as wd:
         src = wd / "sketch.cpp"
@@ -159,9 +169,9 @@ def main() -> int:
     t = tier()
     sd = seed()
     if t == "quick":
-        cases = [("prog", i, sd, i % 8 == 0) for i in range(300)] + [("device", i, sd, i % 3 == 0) for i in range(180)] + [("strings", i, sd, i % 2 == 0) for i in range(120)] + [("poly", i, sd, i % 4 == 0) for i in range(120)] + [("ctx", i, sd, i % 4 == 0) for i in range(190)] + [("lists", i, sd, i % 4 == 0) for i in range(60)]
+        cases = [("prog", i, sd, i % 8 == 0) for i in range(300)] + [("device", i, sd, i % 3 == 0) for i in range(180)] + [("strings", i, sd, i % 2 == 0) for i in range(120)] + [("poly", i, sd, i % 4 == 0) for i in range(120)] + [("ctx", i, sd, i % 4 == 0) for i in range(190)] + [("lists", i, sd, i % 4 == 0) for i in range(60)] + [("boundary", i, sd, i % 4 == 0) for i in range(len(corpus.boundary_scripts()))]
     else:
-        cases = [("prog", i, sd, i % 4 == 0) for i in range(3000)] + [("device", i, sd, i % 2 == 0) for i in range(2000)] + [("strings", i, sd, True) for i in range(1000)] + [("poly", i, sd, i % 2 == 0) for i in range(1000)] + [("ctx", i, sd, True) for i in range(190)] + [("lists", i, sd, i % 2 == 0) for i in range(600)]
+        cases = [("prog", i, sd, i % 4 == 0) for i in range(3000)] + [("device", i, sd, i % 2 == 0) for i in range(2000)] + [("strings", i, sd, True) for i in range(1000)] + [("poly", i, sd, i % 2 == 0) for i in range(1000)] + [("ctx", i, sd, True) for i in range(190)] + [("lists", i, sd, i % 2 == 0) for i in range(600)] + [("boundary", i, sd, True) for i in range(len(corpus.boundary_scripts()))]
     for case, st, res in run_cases(run_case, cases):
         if st != "ok":
             rep.inconclusive_because(f"case {case[:2]} failed: {res[-300:]}")
@@ -194,7 +204,7 @@ def main() -> int:
         if len(rep.samples) < 3 and kind == "strings":
             rep.sample({"kind": kind, "script_tail": res["script"][-500:]})
     witness.check_witnesses(rep)
-    rep.rule = ("accepted scripts from three generators - core-language programs, device-heavy scripts (actuators, sensors, buzzer, LCD text and "
+    rep.rule = ("accepted scripts from the generators - one call per script with a literal argument on or just outside a documented limit (judged when the host classes run it), core-language programs, device-heavy scripts (actuators, sensors, buzzer, LCD text and "
                 "animations, multi-device), string-literal fuzz (every printable ASCII character, quotes, backslashes, %, trigraph-like sequences, braces in "
                 "f-strings, Latin-1/CJK/emoji in serial writes, f-strings, assignments, lists, LCD text, comparisons, helper returns) - are compiled with "
                 "g++ -std=gnu++11 -fpermissive -nostdinc++ against the mock core (C headers only); a sample is linked against the mock libraries and the "
